@@ -17,6 +17,8 @@ import (
 	"hash/fnv"
 	"math/rand"
 	"os"
+	"regexp"
+	"runtime/debug"
 	"sort"
 	"strings"
 	"sync"
@@ -70,6 +72,7 @@ type c15Etcd struct {
 	watchers []*c15Watch
 	mid      map[string][]c15Change // per prefix: applied right after its next snapshot (between Get and Watch)
 	nGet     int
+	nSnap    int // Get calls answered with a snapshot
 	nWatch   int
 	// Get faults, consumed one per call: "err" = fails at once, "block" = blocks until the
 	// request context is done (like a client whose server does not answer) and returns its error
@@ -179,6 +182,7 @@ func (f *c15Etcd) Get(ctx context.Context, key string, opts ...clientv3.OpOption
 		resp.Kvs = append(resp.Kvs, &mvccpb.KeyValue{Key: []byte(k), Value: []byte(f.kv[k]), ModRevision: f.modRev[k]})
 	}
 	resp.Count = int64(len(keys))
+	f.nSnap++
 	for _, c := range f.mid[key] {
 		f.applyLocked(c)
 	}
@@ -205,6 +209,12 @@ func (f *c15Etcd) watchCalls() int {
 	f.mu.Lock()
 	defer f.mu.Unlock()
 	return f.nWatch
+}
+
+func (f *c15Etcd) snapshots() int {
+	f.mu.Lock()
+	defer f.mu.Unlock()
+	return f.nSnap
 }
 
 // c15Log replaces the log writer: the cluster reports an event of unknown type with one
@@ -398,6 +408,135 @@ func c15Mode(excl bool) string {
 	return "plain"
 }
 
+// ---------------------------------------------------------------- stuck calls and panics
+//
+// A barrier that times out is harness trouble when the machine is merely slow, but a finding
+// when a call of the code under test is stuck: a goroutine whose innermost frame (below the
+// runtime and the standard library) lies in the repository's own code, blocked, and still at the
+// same place a second later.  A panic is attributed the same way: by the innermost frame below
+// the panic.
+
+type c15G struct {
+	id, state, inner, innerFile, text string
+}
+
+var c15GHead = regexp.MustCompile(`^goroutine (\d+) \[([^\],]+)`)
+
+func c15StdFrame(fn string) bool {
+	for _, p := range []string{"runtime.", "runtime/", "sync.", "sync/", "time.", "internal/", "panic(", "testing.", "reflect."} {
+		if strings.HasPrefix(fn, p) {
+			return true
+		}
+	}
+	return false
+}
+
+func c15Inner(lines []string) (fn, file string) {
+	for j := 0; j+1 < len(lines); j += 2 {
+		if strings.HasPrefix(lines[j], "created by ") {
+			break
+		}
+		if c15StdFrame(lines[j]) {
+			continue
+		}
+		return lines[j], strings.TrimSpace(lines[j+1])
+	}
+	return "", ""
+}
+
+func c15Goroutines(dump string) []c15G {
+	var out []c15G
+	for _, blk := range strings.Split(dump, "\n\n") {
+		lines := strings.Split(strings.TrimSpace(blk), "\n")
+		m := c15GHead.FindStringSubmatch(lines[0])
+		if m == nil {
+			continue
+		}
+		g := c15G{id: m[1], state: m[2], text: blk}
+		g.inner, g.innerFile = c15Inner(lines[1:])
+		out = append(out, g)
+	}
+	return out
+}
+
+func c15UnderTest(fn, file string) bool {
+	return strings.Contains(fn, "github.com/gotid/god/") && !strings.Contains(file, "zz_verif") && !strings.Contains(fn, "/internal/verifkit")
+}
+
+// c15Stuck looks for goroutines running one of the named functions of the code under test that
+// are blocked inside that code now and a second later (a watch goroutine waiting in
+// watchStream's select is idle, not stuck).
+func c15Stuck(markers ...string) (string, bool) {
+	pick := func() map[string]c15G {
+		m := map[string]c15G{}
+		for _, g := range c15Goroutines(kit.Stacks()) {
+			if g.state == "running" || g.state == "runnable" || g.state == "syscall" || !c15UnderTest(g.inner, g.innerFile) ||
+				strings.Contains(g.inner, ".(*cluster).watchStream(") {
+				continue
+			}
+			for _, mk := range markers {
+				if strings.Contains(g.text, mk) {
+					m[g.id] = g
+					break
+				}
+			}
+		}
+		return m
+	}
+	first := pick()
+	if len(first) == 0 {
+		return "", false
+	}
+	time.Sleep(time.Second)
+	var out []string
+	for id, g := range pick() {
+		if f, ok := first[id]; ok && f.inner == g.inner && f.innerFile == g.innerFile {
+			out = append(out, g.text)
+		}
+	}
+	sort.Strings(out)
+	return strings.Join(out, "\n\n"), len(out) > 0
+}
+
+// c15PanicWhere names the function that panicked (from debug.Stack() taken in the recovering
+// deferred function) and tells whether it belongs to the code under test.
+func c15PanicWhere(stack string) (string, bool) {
+	lines := strings.Split(stack, "\n")
+	at := -1
+	for j, l := range lines {
+		if strings.HasPrefix(l, "panic(") {
+			at = j
+		}
+	}
+	if at < 0 {
+		return "", false
+	}
+	fn, file := c15Inner(lines[at:])
+	return c15Short(fn), c15UnderTest(fn, file)
+}
+
+var c15ArgTail = regexp.MustCompile(`\([^()]*\)$`)
+
+// c15Short turns "github.com/gotid/god/lib/discov/internal.(*cluster).load(0xc0.., ...)" into "cluster.load".
+func c15Short(fn string) string {
+	fn = c15ArgTail.ReplaceAllString(fn, "")
+	if k := strings.LastIndex(fn, "/"); k >= 0 {
+		fn = fn[k+1:]
+	}
+	if k := strings.Index(fn, "."); k >= 0 {
+		fn = fn[k+1:]
+	}
+	return strings.NewReplacer("(*", "", ")", "").Replace(fn)
+}
+
+const (
+	c15MarkNew    = "lib/discov.NewSubscriber("
+	c15MarkReload = ".(*cluster).reload"
+	c15MarkLoad   = ".(*cluster).load("
+	c15MarkEvents = ".(*cluster).handleWatchEvents("
+	c15MarkDiff   = ".(*cluster).handleChanges("
+)
+
 var c15Serial int
 
 func runC15Case(c kit.Case) (v kit.Verdict) {
@@ -407,15 +546,80 @@ func runC15Case(c kit.Case) (v kit.Verdict) {
 	h.Write(c.Raw)
 	rng := rand.New(rand.NewSource(kit.Seed()*1000003 + int64(h.Sum64()>>1)))
 	infra := func(msg string) kit.Verdict { return kit.Verdict{Case: c.Index, Infra: true, Msg: msg} }
+	etcd := newC15Etcd()
+	lateWatch := 0 // number of Watch calls a NewSubscriber should have reached but had not within the time-out
 	fail := func(step int, key, msg string) kit.Verdict {
+		if lateWatch > 0 && etcd.watchCalls() >= lateWatch {
+			// the watch did start, but after the driver had stopped waiting for it: what was compared
+			// since then was not fed to it (slow machine), so the comparison is void
+			return infra("a watch was registered only after the barrier had timed out; void comparison: " + msg)
+		}
 		v.OK, v.Step, v.Key, v.Msg = false, step, key, msg
 		return v
 	}
+	curStep, curOp := 0, "setup"
+	var trail []string
+	defer func() {
+		// a panic of the code under test on the driver's goroutine (Values(), reload, ...) is a finding
+		if r := recover(); r != nil {
+			stack := string(debug.Stack())
+			where, ours := c15PanicWhere(stack)
+			if !ours {
+				panic(r)
+			}
+			v = kit.Verdict{Case: c.Index, Step: curStep, Key: "C15:panic:" + curOp, Steps: v.Steps,
+				Msg: fmt.Sprintf("step %d (%s): %s panicked: %v [history %v]\n%s", curStep, curOp, where, r, trail, stack)}
+		}
+	}()
+	// a time-out of a barrier: a finding when a call of the code under test is stuck, harness
+	// trouble (slow machine, driver bug) otherwise
+	stuckOr := func(step int, what, msg string, markers ...string) kit.Verdict {
+		if stacks, ok := c15Stuck(markers...); ok {
+			return fail(step, "C15:hang:"+what, fmt.Sprintf("step %d (%s): %s; the code under test is blocked and does not move [history %v]\n%s",
+				step, curOp, msg, trail, stacks))
+		}
+		return infra(msg + "\n" + kit.Stacks())
+	}
 	c15Serial++
 	endpoints := []string{fmt.Sprintf("verif-c15-%d-%d-%d:2379", kit.EnvInt("VERIF_SHARD", 0), c.Index, c15Serial)}
-	etcd := newC15Etcd()
-	internal.VerifSeedClient(endpoints, etcd)
-	defer internal.VerifDrop(endpoints)
+	// histories that begin while the registry cannot be reached: the endpoint is a socket path at
+	// which nothing listens (the real client is dialled and fails after internal.DialTimeout); the
+	// registry "comes up" when the scripted client is made the cluster's client, before the first
+	// attempt that is to succeed
+	reachable := true
+	for _, st := range c.Steps {
+		if kit.Str(st["op"]) == "attachfail" {
+			reachable = false
+			endpoints = []string{fmt.Sprintf("unix:///nonexistent/verif-c15-%d-%d-%d.sock", kit.EnvInt("VERIF_SHARD", 0), c.Index, c15Serial)}
+		}
+	}
+	if reachable {
+		internal.VerifSeedClient(endpoints, etcd)
+	}
+	defer func() {
+		// (a cluster left stuck by the code under test must not hold up the next case)
+		done := make(chan struct{})
+		go func() {
+			defer close(done)
+			internal.VerifDrop(endpoints)
+		}()
+		wait := c15Timeout
+		if strings.HasPrefix(v.Key, "C15:hang:") {
+			wait = 100 * time.Millisecond
+		}
+		select {
+		case <-done:
+		case <-time.After(wait):
+		}
+	}()
+	premise := "" // a scenario premise that did not hold (judged only if nothing else disagrees)
+	failedAttempts, retried, retriedAttach := 0, !reachable, 0
+	defer func() {
+		if v.OK && !v.Infra {
+			c15Counts["failed_attempts"] += failedAttempts
+			c15Counts["retried_attaches"] += retriedAttach
+		}
+	}()
 
 	// connection-state stage: reloads are triggered by the real stateWatcher from scripted states
 	var conn *c15Conn
@@ -430,7 +634,6 @@ func runC15Case(c kit.Case) (v kit.Verdict) {
 	subs := map[string]*c15Sub{}
 	var order []string
 	up := true
-	var trail []string
 	// concurrent-reader stage: goroutines calling Values() in a tight loop while events arrive
 	readers := kit.EnvInt("VERIF_C15_READERS", 0)
 	etcd.alwaysBatch = readers > 0
@@ -452,6 +655,7 @@ func runC15Case(c kit.Case) (v kit.Verdict) {
 
 	for i, st := range c.Steps {
 		op := kit.Str(st["op"])
+		curStep, curOp = i, op
 		p := kit.Num(st["p"])
 		pfx := c15Pfx(p)
 		// keys of sibling services (svc2/..., svc-admin/...) changing in the same etcd
@@ -527,7 +731,27 @@ func runC15Case(c kit.Case) (v kit.Verdict) {
 				listened[s.p] = true
 			}
 			if conn == nil {
-				internal.VerifReload(endpoints, etcd)
+				relDone := make(chan string, 1)
+				go func() {
+					defer func() {
+						if r := recover(); r != nil {
+							relDone <- fmt.Sprintf("%v\n%s", r, debug.Stack())
+						}
+					}()
+					internal.VerifReload(endpoints, etcd)
+					relDone <- ""
+				}()
+				select {
+				case pm := <-relDone:
+					if pm != "" {
+						if where, ours := c15PanicWhere(pm); ours {
+							return fail(i, "C15:panic:reload", fmt.Sprintf("step %d: %s panicked during the reload: %s [history %v]", i, where, pm, trail))
+						}
+						return infra("panic in the driver's reload: " + pm)
+					}
+				case <-time.After(c15Timeout):
+					return stuckOr(i, "reload", "cluster.reload did not return", c15MarkReload)
+				}
 			} else {
 				// the connection fails (unless the outage is already under way) and recovers through
 				// the scripted states; the real stateWatcher must call the cluster's reload
@@ -561,7 +785,7 @@ func runC15Case(c kit.Case) (v kit.Verdict) {
 							i, faults, internal.RequestTimeout, msg, trail))
 					}
 				}
-				return infra("reload did not register a new watch per listened prefix\n" + kit.Stacks())
+				return stuckOr(i, "reload", "reload did not register a new watch per listened prefix", c15MarkReload, c15MarkLoad, c15MarkDiff)
 			}
 			// a change scripted between snapshot and watch whose snapshot was never taken still happens
 			etcd.mu.Lock()
@@ -573,10 +797,18 @@ func runC15Case(c kit.Case) (v kit.Verdict) {
 			}
 			etcd.mu.Unlock()
 			up = true
-		case "attach":
+		case "attach", "attachfail":
 			name := kit.Str(st["s"])
 			s := &c15Sub{p: p, name: name, excl: kit.Bool(st["excl"])}
-			before := etcd.watchCalls()
+			if op == "attachfail" && reachable {
+				return infra("generated history has a failing NewSubscriber after the registry became reachable")
+			}
+			if op == "attach" && !reachable {
+				// the registry has come up: from now on the cluster's client is the scripted one
+				internal.VerifSeedClient(endpoints, etcd)
+				reachable = true
+			}
+			before, snapsBefore := etcd.watchCalls(), etcd.snapshots()
 			var opts []discov.SubOption
 			if s.excl {
 				opts = append(opts, discov.Exclusive())
@@ -586,17 +818,36 @@ func runC15Case(c kit.Case) (v kit.Verdict) {
 			etcd.faults, etcd.nHealthy, etcd.nExpired = faults, 0, 0
 			etcd.mu.Unlock()
 			type subRes struct {
-				sub *discov.Subscriber
-				err error
+				sub   *discov.Subscriber
+				err   error
+				panic string
 			}
 			resCh := make(chan subRes, 1)
 			go func() {
+				defer func() {
+					if r := recover(); r != nil {
+						resCh <- subRes{panic: fmt.Sprintf("%v\n%s", r, debug.Stack())}
+					}
+				}()
 				sub, err := discov.NewSubscriber(endpoints, pfx, opts...)
-				resCh <- subRes{sub, err}
+				resCh <- subRes{sub: sub, err: err}
 			}()
 			var sub *discov.Subscriber
 			select {
 			case r := <-resCh:
+				if r.panic != "" {
+					if where, ours := c15PanicWhere(r.panic); ours {
+						return fail(i, "C15:panic:new-subscriber", fmt.Sprintf("step %d: %s panicked during NewSubscriber %s: %s [history %v]", i, where, name, r.panic, trail))
+					}
+					return infra("panic below NewSubscriber outside the code under test: " + r.panic)
+				}
+				if op == "attachfail" {
+					if r.err == nil {
+						premise = fmt.Sprintf("step %d: NewSubscriber returned no error although nothing listens at %v", i, endpoints)
+					}
+					failedAttempts++
+					break
+				}
 				if r.err != nil {
 					return infra("NewSubscriber: " + r.err.Error())
 				}
@@ -613,7 +864,10 @@ func runC15Case(c kit.Case) (v kit.Verdict) {
 							i, name, faults, internal.RequestTimeout, msg, trail))
 					}
 				}
-				return infra("NewSubscriber did not return\n" + kit.Stacks())
+				return stuckOr(i, "new-subscriber", "NewSubscriber did not return", c15MarkNew)
+			}
+			if op == "attachfail" {
+				break
 			}
 			s.sub = sub
 			// "a subscriber that joins ... immediately sees the current set": compared before anything
@@ -621,6 +875,9 @@ func runC15Case(c kit.Case) (v kit.Verdict) {
 			allowed, _ := c15Allowed(st["exp"].(map[string]any)[name])
 			if got := c15Canon(sub.Values()); !c15In(got, allowed) {
 				kind := "first"
+				if retried {
+					kind = "after-failed-attempt"
+				}
 				for _, o := range subs {
 					if o.p == p {
 						kind = "late"
@@ -651,15 +908,26 @@ func runC15Case(c kit.Case) (v kit.Verdict) {
 					}
 				}()
 			}
-			if !kit.WaitFor(c15Timeout, func() bool { return etcd.watchCalls() >= before+1 }) {
-				return infra("NewSubscriber did not register a watch\n" + kit.Stacks())
+			// every snapshot taken by NewSubscriber is the start of a watch (from its revision) that
+			// the driver has to feed: wait for it.  A call that took no snapshot (a joiner served from
+			// the cluster's cache alone) starts none; whether that subscriber then follows the registry
+			// is for the comparisons to tell.  A watch that does not appear is not judged here either.
+			snaps := etcd.snapshots() - snapsBefore
+			if snaps > 1 {
+				snaps = 1
+			}
+			if op == "attach" && retried {
+				retriedAttach++
+			}
+			if !kit.WaitFor(c15Timeout, func() bool { return etcd.watchCalls() >= before+snaps }) {
+				lateWatch = before + snaps
 			}
 		default:
 			return infra("unknown op " + op)
 		}
 		if up {
 			if err := etcd.pump(rng); err != nil {
-				return infra(err.Error())
+				return stuckOr(i, "watch-delivery", err.Error(), c15MarkEvents, c15MarkDiff, c15MarkReload)
 			}
 		}
 		etcd.mu.Lock()
@@ -713,8 +981,13 @@ func runC15Case(c kit.Case) (v kit.Verdict) {
 			}
 		}
 	}
+	if premise != "" {
+		return infra(premise)
+	}
 	return v
 }
+
+var c15Counts = map[string]int{}
 
 // c15Pfx is the watched key of prefix number p ("svc" for single-prefix behaviours).
 func c15Pfx(p int) string {
@@ -849,6 +1122,14 @@ func c15Kind(got []string, exp any) string {
 
 func TestVerifC15(t *testing.T) {
 	logx.SetWriter(c15Logger)
+	if ms := kit.EnvInt("VERIF_C15_DIAL_TIMEOUT_MS", 0); ms > 0 {
+		// exported package variable (default 5 s): how long a NewSubscriber on a registry that cannot
+		// be reached takes to fail; nothing ever listens at those endpoints, so the outcome does not
+		// depend on the value
+		old := internal.DialTimeout
+		internal.DialTimeout = time.Duration(ms) * time.Millisecond
+		defer func() { internal.DialTimeout = old }()
+	}
 	if ms := kit.EnvInt("VERIF_C15_REQ_TIMEOUT_MS", 0); ms > 0 {
 		// exported package variable (default 3 s): shortened for the Get-fault cases so that a
 		// blocking Get costs little real time
@@ -870,6 +1151,11 @@ func TestVerifC15(t *testing.T) {
 	defer f.Close()
 	sc := bufio.NewScanner(f)
 	sc.Buffer(make([]byte, 1<<20), 1<<26)
+	cur, nInfra := kit.Env("VERIF_OUT", "")+".cur", 0
+	curF, err := os.Create(cur)
+	if err != nil {
+		t.Fatal(err)
+	}
 	for i := 0; sc.Scan(); {
 		line := sc.Bytes()
 		if len(line) == 0 {
@@ -884,7 +1170,26 @@ func TestVerifC15(t *testing.T) {
 		if err := json.Unmarshal(line, &c.Steps); err != nil {
 			t.Fatalf("case %d: %v", idx, err)
 		}
-		rep.Put(runC15Case(c))
+		// the case being replayed, for attributing a crash of the process (a panic of the code under
+		// test on one of its own goroutines) to it
+		curF.WriteAt([]byte(fmt.Sprintf("%-12d", idx)), 0)
+		vd := runC15Case(c)
+		rep.Put(vd)
+		if strings.HasPrefix(vd.Key, "C15:hang:") {
+			break // the stuck goroutines of the code under test stay behind in this process
+		}
+		if vd.Infra || strings.HasSuffix(vd.Key, ":never-completes") {
+			// harness trouble does not go away by repeating it a thousand times, and a load that never
+			// completes costs a time-out each time
+			if nInfra++; nInfra >= 3 {
+				break
+			}
+		}
+	}
+	curF.Close()
+	os.Remove(cur)
+	for k, n := range c15Counts {
+		rep.Count(k, n)
 	}
 	if err := sc.Err(); err != nil {
 		t.Fatal(err)
